@@ -88,7 +88,7 @@ def _table_check(c, hprop, prop_files, lemma_files, focus):
 
 
 def check_c01(c):
-    _table_check(c, "c01", ["Properties/C01.v"], ["Proofs/CodecProofs.v", "Proofs/BlockProofs.v", "Proofs/BlockInitEq.v"],
+    _table_check(c, "c01", ["Properties/C01.v"], ["Proofs/CodecProofs.v", "Proofs/BlockProofs.v", "Proofs/BlockInitEq.v", "Proofs/WriterGuard.v", "Proofs/TableProofs.v"],
                  "Focus C01: scans of every table.")
 
 
